@@ -302,6 +302,19 @@ def check_case(fns, case, limits=False):
                 bad.append(("history:" + nm, f"{nm} called again after S_y *= 0.25 and K *= 0.5 IN PLACE returns another value than "
                             f"the same call on fresh copies of the current arrays (max difference "
                             f"{'n/a' if u is None or v is None or u.shape != v.shape else float(np.max(np.abs(u - v)))!r})"))
+        # argument types: whole-number covariances handed over as INTEGER arrays (np.diag([4, 9, 1])), K real-valued:
+        # the same matrices as with the float arrays of the same values
+        Si_a = np.diag(1 + (np.arange(n) * 3) % 7).astype(np.int64)
+        Si_y = np.diag(1 + (np.arange(m) * 5) % 4).astype(np.int64)
+        for nm, argsf in (("error_covariance_matrix", (K, Si_a, Si_y)), ("retrieval_gain_matrix", (K, Si_a, Si_y)),
+                          ("averaging_kernel_matrix", (K, Si_a, Si_y)), ("retrieval_noise", (K, Si_a, Si_y, ey))):
+            ui, _ = call_same_objects(fns[nm], *[a.copy() for a in argsf])
+            uf, _ = call_same_objects(fns[nm], *[np.array(a, dtype=float) for a in argsf])
+            if ui is None or uf is None or ui.shape != uf.shape or \
+                    not np.all(np.abs(ui - uf) <= 1e-9 * np.maximum(np.abs(uf), 1e-300) + 1e-12 * (1 + mx(uf))):
+                bad.append(("integer-covariances:" + nm, f"{nm} with integer-typed S_a, S_y (diagonal, whole numbers) and a real-valued K "
+                            f"differs from the call with the same values as floats (max difference "
+                            f"{'n/a' if ui is None or uf is None or ui.shape != uf.shape else float(np.max(np.abs(ui - uf)))!r})"))
     # --- the two limits, as explicit bounds that tend to zero:
     #     ||I - A~|| = ||S~ Sa~^-1|| <= ||(K~^T Sy~^-1 K~)^-1|| ||Sa~^-1||   (K of full column rank)   [Sy -> eps Sy]
     #     ||A~|| = ||S~ K~^T Sy~^-1 K~|| <= ||Sa~|| ||K~^T Sy~^-1 K~||                                  [Sa -> delta Sa]
